@@ -66,7 +66,7 @@ type CronDag struct {
 
 type CronEvent struct {
 	At   int    `json:"at"`   // before this tick index
-	Kind string `json:"kind"` // add | edit | break | remove | suspend | resume | restart
+	Kind string `json:"kind"` // add | edit | break | remove | suspend | resume | restart | restart-add (a file added during start-up)
 	Dag  int    `json:"dag"`
 }
 
@@ -403,9 +403,16 @@ func RunCron(sc CronScenario, base string, emit func(Ev)) error {
 	var pollFallback int32
 	log.SetOutput(pollFallbackWriter{&pollFallback})
 	defer log.SetOutput(io.Discard)
+	// between: what happens in the directory after the daemon object exists (it has read the directory) and before its
+	// watcher is started - in the real daemon that is the rest of its start-up
+	var between func()
 	mk := func() (*scheduler.Scheduler, chan any) {
 		s := scheduler.New(&config.Config{DAGs: dagsDir, WorkDir: dir, LogDir: filepath.Join(dir, "logs"), Executable: "/bin/false"}, quietLogger, fake)
 		done := make(chan any)
+		if between != nil {
+			between()
+			between = nil
+		}
 		s.VerifStartWatcher(done)
 		time.Sleep(30 * time.Millisecond) // let the watcher goroutine register the directory
 		return s, done
@@ -482,14 +489,32 @@ func RunCron(sc CronScenario, base string, emit func(Ev)) error {
 				fake.mu.Lock()
 				fake.susp[sc.Dags[e.Dag].Name] = e.Kind == "suspend"
 				fake.mu.Unlock()
-			case "restart":
+			case "restart", "restart-add":
 				close(done)
+				var added *CronDag
+				if e.Kind == "restart-add" {
+					// a definition is added while the daemon starts up: after it has read the directory, before it watches it
+					d := sc.Extra[e.Dag]
+					added = &d
+					between = func() {
+						write(d)
+						disk[d.Name] = d
+						fake.dur[d.Name] = d.Dur
+					}
+				}
 				s, done = mk()
 				// after a restart only what is on disk counts
 				unspec = map[string]bool{}
 				defs = map[string]CronDag{}
 				for n, d := range disk {
 					defs[n] = d
+				}
+				if added != nil {
+					want := strings.Join(wantSched(*added), "|")
+					name := added.Name
+					waitLoaded(func(l []string) bool {
+						return contains(l, name+".yaml") && strings.Join(s.VerifLoadedSchedules(name+".yaml"), "|") == want
+					})
 				}
 			}
 		}
@@ -685,6 +710,14 @@ func GenCron(id int, r *rand.Rand) CronScenario {
 			sc.Events = append(sc.Events, CronEvent{At: at, Kind: "remove", Dag: r.Intn(n)})
 		case 3:
 			sc.Events = append(sc.Events, CronEvent{At: at, Kind: []string{"suspend", "resume"}[r.Intn(2)], Dag: r.Intn(n)})
+		case 4:
+			d := mkDag(fmt.Sprintf("boot%d", e))
+			if d.Form == "invalid" || d.Form == "badcron" || d.Form == "none" {
+				d.Form = "string"
+				d.Start = []CronExpr{GenCronExpr(r, true)}
+			}
+			sc.Extra = append(sc.Extra, d)
+			sc.Events = append(sc.Events, CronEvent{At: at, Kind: "restart-add", Dag: len(sc.Extra) - 1})
 		default:
 			sc.Events = append(sc.Events, CronEvent{At: at, Kind: "restart"})
 		}
